@@ -38,7 +38,7 @@ func errorValuesOf(c ssa.CallInstruction) []ssa.Value {
 }
 
 func runC18(e *Engine, r *Report, tier string) {
-	r.Explanation = "C18, structural clauses. Sites are found, not listed: every CacheContext() call in fx-core consensus code whose write-back function is used, and every IBC OnRecvPacket implementer. Decided per site: R1a every state effect between the creation of the cached context and the write-back that can still reach the write-back uses the cached context (none bypasses it through the outer context); R1b the write-back is control dependent on `err == nil` where err collects the error of every effectful call made on the cached context (no sub-step error is ignored, no unconditional or error-path write-back); R1c no effect is performed on the cached context on the failure branch (its writes would be dropped, the designated outcome must be written with the outer context); R1d any recover() in consensus code turns the panic into the enclosing function's error result; R2 in the IBC middleware a keeper error after the inner module succeeded yields an error acknowledgement. R4 a value-moving sub-step whose error is tolerated runs on a cached context, everywhere else its error is propagated (decided as C04.R8 for the IBC middleware and the claim handlers). R5 what a failed inbound bridge call had credited is taken back from the very account that was credited before the refund is queued (the credited == debited obligations of C04.R4). R6 no function writes in place into bytes read from a store: such a write bypasses Set and is not dropped with a cached context (imported from C09.R6). Not decided: failures inside the EVM at every gas limit (covered only via error propagation), the exact content of the designated outcome."
+	r.Explanation = "C18, structural clauses. Sites are found, not listed: every CacheContext() call in fx-core consensus code whose write-back function is used, and every IBC OnRecvPacket implementer. Decided per site: R1a every state effect between the creation of the cached context and the write-back that can still reach the write-back uses the cached context (none bypasses it through the outer context); R1b the write-back is control dependent on `err == nil` where err collects the error of every effectful call made on the cached context (no sub-step error is ignored, no unconditional or error-path write-back); R1c no effect is performed on the cached context on the failure branch (its writes would be dropped, the designated outcome must be written with the outer context); R1d any recover() in consensus code turns the panic into the enclosing function's error result; R2 in the IBC middleware a keeper error after the inner module succeeded yields an error acknowledgement. R4 a value-moving sub-step whose error is tolerated runs on a cached context, everywhere else its error is propagated (decided as C04.R8 for the IBC middleware and the claim handlers). R5 what a failed inbound bridge call had credited is taken back from the very account that was credited before the refund is queued (the credited == debited obligations of C04.R4). R6 no function writes in place into bytes read from a store: such a write bypasses Set and is not dropped with a cached context (imported from C09.R6). R7 where a panic of a sub-step is recovered, the function's recover path returns a non-nil error: the deferred function assigns a named result (with unnamed results the assignment goes to a local and the recovered call returns nil, so the caller commits). Not decided: failures inside the EVM at every gas limit (covered only via error propagation), the exact content of the designated outcome."
 	r.Rule("R1a", "sub-step effects go through the cached context", 3, "CacheContext sites with a used write-back")
 	r.Rule("R1b", "write-back guarded by err == nil of all sub-step calls", 3, "CacheContext sites with a used write-back")
 	r.Rule("R1c", "no effect on the cached context after the failure was detected", 3, "CacheContext sites with a used write-back")
@@ -277,6 +277,8 @@ func runC18(e *Engine, r *Report, tier string) {
 	// R3: an EVM call's response is inspected for failure before the sub-step is reported successful
 	r.Rule("R3", "EVM call: success is reported only after `!resp.Failed()`", 2, "calls returning *MsgEthereumTxResponse in consensus code")
 	r.Rule("R5", "the compensation of a tolerated failure debits the account that was credited (C04.R4: credited account == debited account)", 3, "C04 obligations")
+	r.Rule("R7", "a function that recovers from a panic of a sub-step returns a non-nil error on that path (the deferred function writes a named result)", 1, "functions deferring a recover()")
+	e.c18RecoverReports(r)
 	r.Rule("R6", "bytes read from a store are never written in place: a write that bypasses Set is not dropped with the cached context of a failed sub-step (C09.R6)", 40, "KVStore / iterator read sites")
 	e.storeAliasRule(r, "R6")
 	r.Rule("R4", "a sub-step that moves value and fails either fails the whole step or ran on a cached context: its error is never swallowed on the live context (C04.R8 at the IBC middleware and claim handlers)", 2, "C04 obligations")
@@ -526,4 +528,79 @@ func takesHandler(c ssa.CallInstruction) bool {
 	}
 	n := callName(c)
 	return strings.HasPrefix(n, "AfterProposal") || n == "safeExecuteHandler"
+}
+
+// c18RecoverReports: R7. In go/ssa a function with a deferred recover has a Recover block that runs after a recovered panic:
+// it returns the named results as last written, or zero values when the results are unnamed.
+func (e *Engine) c18RecoverReports(r *Report) {
+	n := 0
+	for _, fn := range e.Funcs {
+		if isAuxPkg(fnPkgPath(fn)) || fn.Parent() != nil {
+			continue
+		}
+		recovers := false
+		for _, an := range fn.AnonFuncs {
+			allCalls(an, func(c ssa.CallInstruction) {
+				if b, ok := c.Common().Value.(*ssa.Builtin); ok && b.Name() == "recover" {
+					recovers = true
+				}
+			})
+		}
+		if !recovers {
+			continue
+		}
+		idx := errorResultIndex(fn)
+		if idx < 0 {
+			continue
+		}
+		n++
+		ck := e.CanonFnKey(fn) + " recover-path"
+		if fn.Recover == nil || len(fn.Recover.Instrs) == 0 {
+			r.Fail("R7", ck, e.Pos(fn.Pos()), "the function defers a recover() but has no recover path returning its results")
+			continue
+		}
+		ret, ok := fn.Recover.Instrs[len(fn.Recover.Instrs)-1].(*ssa.Return)
+		if !ok || idx >= len(ret.Results) {
+			r.Undecided("R7", ck, e.Pos(fn.Pos()), "recover block does not end in a return")
+			continue
+		}
+		ev := ret.Results[idx]
+		if isNilConst(ev) {
+			r.Fail("R7", ck, e.Pos(fn.Pos()), "after a recovered panic the function returns a nil error (its results are not named, so what the deferred function assigns is a local): the caller treats the panicking sub-step as successful and writes its cached context back, partial writes included")
+			continue
+		}
+		// a load of a named result that the deferred closure stores a non-nil error into
+		writes := false
+		if u, ok := ev.(*ssa.UnOp); ok {
+			if al, ok := u.X.(*ssa.Alloc); ok {
+				for _, an := range fn.AnonFuncs {
+					for bi, fv := range an.FreeVars {
+						_ = bi
+						allInstrs(an, func(i ssa.Instruction) {
+							if st, ok := i.(*ssa.Store); ok && st.Addr == ssa.Value(fv) && definitelyNonNilErr(st.Val) {
+								// is fv bound to al?
+								allInstrs(fn, func(j ssa.Instruction) {
+									if mk, ok := j.(*ssa.MakeClosure); ok && mk.Fn == ssa.Value(an) {
+										for k, b := range mk.Bindings {
+											if b == ssa.Value(al) && an.FreeVars[k] == fv {
+												writes = true
+											}
+										}
+									}
+								})
+							}
+						})
+					}
+				}
+			}
+		}
+		if writes {
+			r.Ok("R7", ck, e.Pos(fn.Pos()), "the recover path returns the named error result, which the deferred function sets to a non-nil error")
+		} else {
+			r.Fail("R7", ck, e.Pos(fn.Pos()), "after a recovered panic the function does not return the error the deferred function builds (the deferred function must assign a *named* error result; with unnamed results its assignment goes to a local): the caller treats the panicking sub-step as successful and writes its cached context back, partial writes included")
+		}
+	}
+	if n == 0 {
+		r.Fail("R7", "recover sites", "", "UNRESOLVED-ANCHOR: no function deferring a recover() (the gov proposal executor has one)")
+	}
 }
